@@ -7,11 +7,11 @@ Import ListNotations.
 Open Scope N_scope.
 
 (* the positions of the physical writes of an accepted WriteSector, IN ORDER: length then data when the
-   sector count is unchanged; otherwise header entry, timestamp, length, data *)
+   sector count is unchanged; otherwise timestamp, header entry (the location, last of setHead), length, data *)
 Lemma write_order s x z d now s' ws : write_sector s x z d now = (s', ws, WOk) ->
   (exists n, map wpos ws = [4096 * n; 4096 * n + 4] /\ map wdat ws = [be 4 (flen d); d]) \/
-  (exists n o', map wpos ws = [4 * idx x z; 4096 + 4 * idx x z; 4096 * n; 4096 * n + 4] /\
-                map wdat ws = [be 4 o'; be 4 (now mod 2^32); be 4 (flen d); d]).
+  (exists n o', map wpos ws = [4096 + 4 * idx x z; 4 * idx x z; 4096 * n; 4096 * n + 4] /\
+                map wdat ws = [be 4 (now mod 2^32); be 4 o'; be 4 (flen d); d]).
 Proof.
   unfold write_sector. cbv zeta.
   destruct (256 <=? _); [intros E; inversion E|].
@@ -25,8 +25,8 @@ Theorem write_order_translated s x z d now s' ws :
   x < 32 -> z < 32 -> lenN d + 4 + 4095 < 2^43 -> hwm s <= sector_limit -> now < 2^63 ->
   interp_write s x z d now = Some (s', ws, WOk) ->
   (exists n, map wpos ws = [4096 * n; 4096 * n + 4] /\ map wdat ws = [be 4 (flen d); d]) \/
-  (exists n o', map wpos ws = [4 * idx x z; 4096 + 4 * idx x z; 4096 * n; 4096 * n + 4] /\
-                map wdat ws = [be 4 o'; be 4 (now mod 2^32); be 4 (flen d); d]).
+  (exists n o', map wpos ws = [4096 + 4 * idx x z; 4 * idx x z; 4096 * n; 4096 * n + 4] /\
+                map wdat ws = [be 4 (now mod 2^32); be 4 o'; be 4 (flen d); d]).
 Proof.
   intros Hx Hz Hd Hh Hn E. rewrite interp_write_eq in E by assumption. inversion E as [E'].
   apply (write_order s x z d now s' ws E').
